@@ -36,7 +36,7 @@ def data_spec(rng):
                        "items": [["k", "item-k"], ["b", r.randrange(0, 9)], [0, "zero"]]}},
         "os": [{"$obj": {"id": n + 1, "attrs": [["k", r.choice(["a", "b", "A"])], ["v", r.randrange(0, 5)]], "items": []}}
                for n in range(r.randrange(0, 4))],
-        "ds": dicts(), "tree": tree(2),
+        "ds": dicts(), "tree": tree(2), "ll": [ints(0, 3) for _ in range(r.randrange(0, 4))],
         "n": None, "b": r.random() < 0.5,
         # iteration-position-only variables (lists in sync mode; lists / generators / async generators in async mode)
         "ax": {"$aiter": ints()}, "asx": {"$aiter": strs()}, "ads": {"$aiter": dicts()}, "atree": {"$aiter": tree(2)},
@@ -208,6 +208,69 @@ class PG:
             self.feat.add("aiter-var")
         return src + "".join("|" + s for s in steps), ty
 
+    # ---- the same value again after a filter --------------------------------------------------------------------------
+    REUSE_SOURCES = [("xs", "int"), ("ss", "str"), ("ds", "dict"), ("os", "obj"), ("tree", "dict"), ("ll", "list"), ("xs", "int"), ("ds", "dict")]
+    # every filter with an async variant and every iterable consumer, applied directly to a context list
+    DIRECT = {
+        "int": ["sort", "sort(reverse=true)", "reverse|list", "batch(2)|list", "min", "max", "unique|list", "slice(2)|list", "sum", "first", "last",
+                "length", "join(',')", "list", "map('string')|list", "select('odd')|list", "reject('odd')|list", "groupby('real')|list|length",
+                "select|first", "map('abs')|sum", "list|sort", "count", "tojson", "pprint", "string"],
+        "str": ["sort", "sort(case_sensitive=true)", "reverse|list", "batch(2)|list", "min", "max", "unique|list", "slice(2)|list", "first", "last",
+                "length", "join(',')", "list", "map('upper')|list", "select|list", "reject('eq', 'a')|list", "unique(case_sensitive=true)|list",
+                "join", "map('length')|sum"],
+        "dict": ["groupby('k')|list", "groupby('k', case_sensitive=true)|map(attribute='list')|list", "groupby('v')|map('first')|list",
+                 "sort(attribute='k')|map(attribute='v')|list", "sort(attribute='v', reverse=true)|list", "unique(attribute='k')|list",
+                 "map(attribute='v')|list", "selectattr('v')|list", "rejectattr('v')|list", "sum(attribute='v')", "join(',', attribute='k')",
+                 "min(attribute='v')", "max(attribute='k')", "first", "last", "list", "slice(2)|list", "batch(2)|list", "reverse|list", "length",
+                 "groupby('k')|map(attribute='list')|map('length')|list", "groupby('name', default='-')|list|length"],
+        "list": ["sum(start=[])", "map('sort')|list", "map('first')|list", "list", "first", "last", "sort", "reverse|list", "map('sum')|list",
+                 "map('join')|join('/')", "slice(2)|list", "batch(2)|list", "unique|list", "join(';')", "map('reverse')|map('list')|list"],
+    }
+    DIRECT["obj"] = [f for f in DIRECT["dict"] if "name" not in f and f not in ("list", "first", "last", "slice(2)|list", "batch(2)|list", "reverse|list",
+                                                                                  "selectattr('v')|list", "rejectattr('v')|list", "sort(attribute='v', reverse=true)|list", "unique(attribute='k')|list",
+                                                                                  "groupby('k')|list", "min(attribute='v')", "max(attribute='k')")] + \
+        ["selectattr('v')|map(attribute='k')|list", "groupby('k')|map('first')|list", "sort(attribute='k')|map(attribute='v')|join(',')"]
+
+    def again(self, src, ty):
+        """render the ORIGINAL variable again"""
+        if ty in ("dict", "obj"):
+            opts = ["{{ %s|map(attribute='k')|join(',') }}" % src, "{{ %s|map(attribute='v')|join(',') }}" % src, "{% for q in " + src + " %}{{ q.k }}{{ q.v }};{% endfor %}",
+                    "{{ %s|length }}" % src, "{{ %s[0].v }}" % src, "{{ (%s|first).k }}" % src, "{{ %s|map(attribute='name')|join(',') }}" % src]
+        elif ty == "list":
+            opts = ["{{ %s|list }}" % src, "{{ %s }}" % src, "{{ %s|map('join', '.')|join(',') }}" % src, "{{ %s[0] }}" % src, "{{ %s|length }}" % src,
+                    "{% for q in " + src + " %}{{ q }}{% endfor %}"]
+        else:
+            opts = ["{{ %s|list }}" % src, "{{ %s|join(',') }}" % src, "{{ %s }}" % src, "{% for q in " + src + " %}{{ q }},{% endfor %}", "{{ %s|length }}" % src,
+                    "{{ %s[0] }}" % src, "{{ %s|first }}{{ %s|last }}" % (src, src)]
+        return self.pick(opts)
+
+    def reuse(self):
+        """a filter applied to a context list, then the same variable again"""
+        r = self.r
+        self.feat.add("reuse-after-filter")
+        src, ty = self.pick(self.REUSE_SOURCES)
+        if r.random() < 0.6:
+            use = "{{ %s|%s }}" % (src, self.pick(self.DIRECT[ty]))
+        else:
+            steps, t2 = [], ty
+            for _ in range(r.randrange(0, 3)):
+                st, t2 = self.producer(t2)
+                steps.append(st)
+            use = "{{ %s|%s }}" % (src + "".join("|" + x for x in steps), self.sink(t2, self.pick(["str", "int"])))
+        return use + "|" + self.again(src, ty) + self.again(src, ty)
+
+    def setmut(self):
+        """`{% set ys = xs|<filter> %}`, mutation of ys through a method call, then the original"""
+        self.feat.add("mutate-filter-result")
+        src, ty = self.pick(self.REUSE_SOURCES)
+        f = self.pick(["list", "list", "unique|list", "sort", "slice(2)|list", "batch(2)|list", "select|list", "map('string')|list" if ty == "int" else "list",
+                       "groupby('k')" if ty in ("dict", "obj") else "list", "reverse|list", "groupby('k')|map(attribute='list')|first" if ty in ("dict", "obj") else "sort",
+                       "first" if ty == "list" else "list", "last" if ty == "list" else "list", "map('list')|first" if ty == "list" else "list"])
+        mut = self.pick(["{% if ys.pop is defined and ys %}{{ ys.pop() is defined }}{% endif %}", "{% if ys.append is defined %}{{ ys.append(1) }}{% endif %}",
+                         "{% if ys.sort is defined %}{{ ys.sort() }}{% endif %}", "{% if ys.reverse is defined %}{{ ys.reverse() }}{% endif %}",
+                         "{% if ys.clear is defined %}{% do ys.clear() %}{% endif %}", "{% if ys.insert is defined %}{% do ys.insert(0, 9) %}{% endif %}"])
+        return "{% set ys = " + src + "|" + f + " %}" + mut + "|" + self.again(src, ty) + self.again(src, ty)
+
     # ---- statements ---------------------------------------------------------------------------------------------
     def text(self):
         return self.pick(["x", "Hello ", "\n", "<p>", " & ", "ä", "1 2", "--", "  ", ";", "[", "]"])
@@ -348,7 +411,7 @@ class PG:
             if "macros" in self.f:
                 kinds += ["macro", "macro_use", "macro_use"]
             if "chains" in self.f:
-                kinds += ["chain", "chain"]
+                kinds += ["chain", "chain", "reuse", "reuse", "setmut"]
             if "autoescape" in self.f:
                 kinds += ["autoescape"]
             if "include" in self.f and "inc" in self.templates:
@@ -362,6 +425,10 @@ class PG:
             return self.out()
         if k == "chain":
             return "{{ %s }}" % self.chain(self.pick(["str", "str", "int"]))
+        if k == "reuse":
+            return self.reuse()
+        if k == "setmut":
+            return self.setmut()
         if k == "if":
             self.feat.add("if")
             e = "{%% if %s %%}%s" % (self.bool_e(), self.body(d - 1))
